@@ -164,8 +164,67 @@ class Canon(ast.NodeTransformer):
         return self._flip(node)
 
 
+def _negate(t: ast.AST) -> ast.AST:
+    if isinstance(t, ast.UnaryOp) and isinstance(t.op, ast.Not):
+        return t.operand
+    if isinstance(t, ast.Compare) and len(t.ops) == 1 and type(t.ops[0]) in _NEG_ALL:
+        return ast.copy_location(ast.Compare(left=t.left, ops=[_NEG_ALL[type(t.ops[0])]()], comparators=t.comparators), t)
+    return ast.copy_location(ast.UnaryOp(op=ast.Not(), operand=t), t)
+
+
+_NEG_ALL = {ast.Eq: ast.NotEq, ast.NotEq: ast.Eq, ast.Is: ast.IsNot, ast.IsNot: ast.Is, ast.In: ast.NotIn, ast.NotIn: ast.In}
+
+
+def _must_exit(stmts) -> bool:
+    if not stmts:
+        return False
+    s = stmts[-1]
+    if isinstance(s, (ast.Return, ast.Raise, ast.Continue, ast.Break)):
+        return True
+    if isinstance(s, ast.If) and s.orelse:
+        return _must_exit(s.body) and _must_exit(s.orelse)
+    return False
+
+
+def _flatten_block(block: list) -> list:
+    """`if c: <..exit> else: B`  ->  `if c: <..exit>` followed by B: an else after a branch that always leaves
+    (return / raise / continue / break) is the same program as a guard clause. One spelling for both."""
+    out = []
+    for s in block:
+        for fld in ("body", "orelse", "finalbody"):
+            b = getattr(s, fld, None)
+            if isinstance(b, list) and b and isinstance(b[0], ast.stmt):
+                setattr(s, fld, _flatten_block(b))
+        if isinstance(s, ast.Try):
+            for h in s.handlers:
+                h.body = _flatten_block(h.body)
+        if isinstance(s, ast.Match):
+            for c_ in s.cases:
+                c_.body = _flatten_block(c_.body)
+        if isinstance(s, ast.If) and s.orelse and not _must_exit(s.body) and _must_exit(s.orelse):
+            # the branch that always leaves goes first, as a guard: `if c: B else: <exit>` -> `if not c: <exit>` ; B
+            s.test = _negate(s.test)
+            s.body, s.orelse = s.orelse, s.body
+        if isinstance(s, ast.If) and s.orelse and _must_exit(s.body):
+            tail, s.orelse = s.orelse, []
+            out.append(s)
+            out.extend(tail)  # already flattened above
+        else:
+            out.append(s)
+    return out
+
+
 def canonicalise(tree: ast.Module):
+    def flatten_all():
+        for n in ast.walk(tree):
+            if isinstance(n, (ast.FunctionDef, ast.AsyncFunctionDef)) and n.name not in ("__eq__", "__ne__"):
+                n.body = _flatten_block(n.body)
+
+    # guard clauses first (an `if not c: <exit> else: B` must lose its else before the polarity pass would
+    # swap its branches), then the polarity pass, then once more for what the swaps exposed
+    flatten_all()
     c = Canon()
     c.visit(tree)
+    flatten_all()
     ast.fix_missing_locations(tree)
     return c.flipped, c.folded
